@@ -9,6 +9,7 @@ import Gv.Model.Compress
 import Gv.Oracle.Mask
 import Gv.Model.Translate
 import Gv.Model.Stats
+import Gv.Oracle.CliDefaults
 /-!
 Command-line glue (flag parsing, defaults, conversions, readers and writers) checked against the library
 models: `cli_lib <stdin FASTA, | = newline> <argv…>` — what the built binary must print for a command
@@ -17,6 +18,7 @@ writer.  The result of the binary is `rc=<status> out=<stdout>` (`out` empty whe
 -/
 namespace Gv.Oracle.CliOps
 open Gv Gv.Oracle Gv.Model Gv.Oracle.DetOps
+open Gv.Oracle.CliDefaults (effective)
 
 def ok (r : Rows) : String := "rc=0 out=" ++ fasta r
 def bad : String := "rc=1 out="
@@ -54,9 +56,9 @@ def expected (rows : Rows) (argv : List String) : Option String :=
     -- cmd/subseq.go: window `-s` / `-l` (defaults 0 / 10), on the reference sequence with `--ref-seq`; `-r` keeps what
     -- lies outside the window (the pieces are concatenated); `--step k` writes one alignment per window start,
     -- start + k, … while the window fits
-    let st ← parseInt? ((opt fl "-s").getD "0")
-    let ln ← parseInt? ((opt fl "-l").getD "10")
-    let stepv ← parseInt? ((opt fl "--step").getD "0")
+    let st ← parseInt? ((opt fl "-s").getD (← effective "subseqCmd" "start"))
+    let ln ← parseInt? ((opt fl "-l").getD (← effective "subseqCmd" "length"))
+    let stepv ← parseInt? ((opt fl "--step").getD (← effective "subseqCmd" "step"))
     let rev := flag fl "-r" || flag fl "--reverse"
     let ref := opt fl "--ref-seq"
     if ref.isSome && stepv > 0 then some bad else
@@ -100,7 +102,7 @@ def expected (rows : Rows) (argv : List String) : Option String :=
   | "clean" :: "sites" :: "-c" :: cut :: fl => do
     let (num, den) ← decFrac cut
     let ends := flag fl "--ends"
-    let ch := (opt fl "--char").getD "GAP"
+    let ch := (opt fl "--char").getD (← effective "cleanCmd" "char")
     if ch == "MAJ" then
       let r := removeMajoritySites (cutoffTestRaw num den) rows L 1 ends (flag fl "--ignore-gaps") (flag fl "--ignore-n")
       some (ok r.rows)
@@ -114,9 +116,9 @@ def expected (rows : Rows) (argv : List String) : Option String :=
     -- 0 / 10); with `--ref-seq` every window is given on the ungapped reference and converted first
     let hasRef := (opt fl "--ref-seq").isSome
     let refseq := (opt fl "--ref-seq").getD ""
-    let mr := MaskOps.decRep ((opt fl "--replace").getD "AMBIG")
+    let mr := MaskOps.decRep ((opt fl "--replace").getD (← effective "maskCmd" "replace"))
     if flag fl "--unique" then
-      let mo ← parseInt? ((opt fl "--at-most").getD "1")
+      let mo ← parseInt? ((opt fl "--at-most").getD (← effective "maskCmd" "at-most"))
       match maskOccurences rows L 1 refseq mo mr with
       | some r => some (ok r)
       | none => some bad
@@ -124,8 +126,8 @@ def expected (rows : Rows) (argv : List String) : Option String :=
       let windows : List (Int × Int) ← match opt fl "--pos" with
         | some p => (p.splitOn ",").mapM fun x => (parseInt? x).map fun v => (v, (1 : Int))
         | none => do
-          let st ← parseInt? ((opt fl "-s").getD "0")
-          let ln ← parseInt? ((opt fl "-l").getD "10")
+          let st ← parseInt? ((opt fl "-s").getD (← effective "maskCmd" "start"))
+          let ln ← parseInt? ((opt fl "-l").getD (← effective "maskCmd" "length"))
           pure [(st, ln)]
       let step (acc : Option Rows) (w : Int × Int) : Option Rows :=
         match acc with
@@ -153,16 +155,16 @@ def expected (rows : Rows) (argv : List String) : Option String :=
     some (ok rs)
   | ["sort"] => some (ok (pairs (sortRows (addAllStop (newAlign 1) rows).1)))
   | "translate" :: "--ref-seq" :: name :: fl => do
-    let ph ← parseInt? ((opt fl "--phase").getD "0")
-    let code : Int := match (opt fl "--genetic-code").getD "standard" with
+    let ph ← parseInt? ((opt fl "--phase").getD (← effective "translateCmd" "phase"))
+    let code : Int := match (opt fl "--genetic-code").getD (← effective "translateCmd" "genetic-code") with
       | "standard" => 0 | "mitov" => 1 | "mitoi" => 2 | _ => 99
     match translateByReferenceZ 1 ph code name rows with
     | some r => some (ok r)
     | none => some bad
   | "translate" :: fl => do
     -- cmd/translate.go on an alignment, one frame: every row translated from `phase`
-    let ph ← ((opt fl "--phase").getD "0").toNat?
-    let code : Int := match (opt fl "--genetic-code").getD "standard" with
+    let ph ← ((opt fl "--phase").getD (← effective "translateCmd" "phase")).toNat?
+    let code : Int := match (opt fl "--genetic-code").getD (← effective "translateCmd" "genetic-code") with
       | "standard" => 0 | "mitov" => 1 | "mitoi" => 2 | _ => 99
     match rows.mapM (fun r => (translateSeq ph code r.2).map fun p => (r.1, p)) with
     | some r => some (ok r)
@@ -185,7 +187,7 @@ def expected (rows : Rows) (argv : List String) : Option String :=
     some (if r.2 then bad else ok r.1)
   | "addid" :: fl =>
     -- the default of -n is the string "none"
-    let id := (opt fl "-n").getD "none"
+    let id := (opt fl "-n").getD ((effective "addidCmd" "name").getD "none")
     let right := flag fl "-r"
     some (ok (rows.map fun r => (if right then r.1 ++ id else id ++ r.1, r.2)))
   | _ => none
@@ -209,14 +211,14 @@ def expected2 (rows : Rows) (argv : List String) : Option String :=
   match argv with
   | "trim" :: "seq" :: fl => do
     -- cmd/seq.go: TrimSequences(n, fromStart); -n defaults to 1
-    let n ← parseInt? ((opt fl "-n").getD "1")
+    let n ← parseInt? ((opt fl "-n").getD (← effective "seqCmd" "nb-char"))
     match trimSequences n (flag fl "-s") (bagOf rows) with
     | some (b, false) => some (ok (pairs b))
     | _ => some bad
   | "trim" :: "name" :: fl => do
     -- cmd/name.go without --out-map: TrimNamesAuto (priority) or TrimNames(n)
     if flag fl "-a" then some (ok (pairs (trimNamesAuto 1 (bagOf rows)).1)) else
-    let n ← parseInt? ((opt fl "-n").getD "1")
+    let n ← parseInt? ((opt fl "-n").getD (← effective "nameCmd" "nb-char"))
     let r := trimNames n (bagOf rows)
     some (if r.2 then bad else ok (pairs r.1))
   | ["rename", "--clean-names"] => some (ok (pairs (cleanNames (bagOf rows))))
@@ -227,7 +229,7 @@ def expected2 (rows : Rows) (argv : List String) : Option String :=
     some (if r.2 then bad else ok (pairs r.1))
   | "clean" :: "seqs" :: "-c" :: cut :: fl => do
     let (num, den) ← decFrac cut
-    let ch := (opt fl "--char").getD "GAP"
+    let ch := (opt fl "--char").getD (← effective "cleanCmd" "char")
     let iN := flag fl "--ignore-n"
     let r ←
       if ch == "GAP" || ch == "-" then pure (removeCharacterSeqs (cutoffTest num den) GAP false false iN (bagOf rows))
@@ -285,7 +287,7 @@ def expectedF (rows : Rows) (files : List (String × String)) (argv : List Strin
       let b := (trimNamesAuto 1 (bagOf rows)).1
       some (okF (pairs b) (mf ++ "=" ++ nameMapText (old.zip ((pairs b).map Prod.fst))))
     else
-      let n ← parseInt? ((opt fl "-n").getD "1")
+      let n ← parseInt? ((opt fl "-n").getD (← effective "nameCmd" "nb-char"))
       let r := trimNames n (bagOf rows)
       if r.2 then some badF else some (okF (pairs r.1) (mf ++ "=" ++ nameMapText (old.zip ((pairs r.1).map Prod.fst))))
   | "rename" :: "-m" :: mf :: fl => do
